@@ -158,6 +158,7 @@ class Interp:
         for info in self.obs.executors.values():
             if info["wref"]() is ex:
                 known = info
+        fresh = known is None
         if known is None:
             known = self._ex_info(o["ex"], ex, "reusable", o.get("kw", {}))
             self.obs.executors[len(self.obs.executors)] = known
@@ -174,7 +175,8 @@ class Interp:
         procs = ex._processes
         if prev_state is not None:
             prev_state = {k: v for k, v in prev_state.items() if k != "ident"}
-        return dict(n=known["n"], id=ex.executor_id, same=(prev is ex), prev=prev_state, old_pids=old_pids,
+        return dict(n=known["n"], id=ex.executor_id, same=(prev is ex), prev=prev_state, old_pids=old_pids, fresh=fresh,
+                    started=ex._executor_manager_thread is not None,
                     old=alive_old, max_workers=ex._max_workers,
                     broken=ex._flags.broken is not None, shutdown=ex._flags.shutdown,
                     pids=sorted(procs), alive=sorted(p for p in procs if k.procs[p].alive),
